@@ -248,6 +248,10 @@ type helperCtx struct {
 	// so a guard spelled on the caller's values (f.Sync() on the temp file, the
 	// same response, the inserted key) is recognised inside the helper
 	act map[*ssa.Function][]*Expr
+	// edgePhi (opt-in, set by the rule that builds the context): when judging what a
+	// helper's phi-valued result may yield, an operand that flows in over a barrier edge
+	// is skipped (phiEdgeBlocked).  Off for every rule that goes through reach()/unguarded().
+	edgePhi bool
 }
 
 // inHelper rewrites a condition met in function f's body into the caller's terms.
@@ -460,6 +464,9 @@ func (hc *helperCtx) mayYield(h *ssa.Function, v ssa.Value, at ssa.Instruction, 
 			if len(pred.Instrs) == 0 {
 				return true
 			}
+			if hc.edgePhi && hc.phiEdgeBlocked(pred, ph.Block(), bars) {
+				continue // the operand flows in over a barrier edge: not on a bars-avoiding path
+			}
 			if hc.mayYield(h, e, pred.Instrs[len(pred.Instrs)-1], want, bars, base, depth+1) {
 				return true
 			}
@@ -492,6 +499,39 @@ func (hc *helperCtx) mayYield(h *ssa.Function, v ssa.Value, at ssa.Instruction, 
 	}
 	r2 := reachH(entryPoint(h), append(append([]Barrier{}, bars...), fix), nil, hc)
 	return r2.visited[at]
+}
+
+// phiEdgeBlocked: the CFG edge pred→succ (an incoming edge of a phi in succ) is itself a
+// barrier edge — pred branches on a barrier atom, or on the verdict of a further helper
+// that implies the barriers, and succ is the successor taken on that side.  A constant
+// operand flowing in over such an edge (`x && !(guardA(..) && guardB(..))`: the `false`
+// of the inner conjunction arrives on guardA's false edge) is not a bars-avoiding yield,
+// although the branching block itself is reachable.
+func (hc *helperCtx) phiEdgeBlocked(pred, succ *ssa.BasicBlock, bars []Barrier) bool {
+	iff, ok := pred.Instrs[len(pred.Instrs)-1].(*ssa.If)
+	if !ok || len(pred.Succs) != 2 || pred.Succs[0] == pred.Succs[1] {
+		return false
+	}
+	k := 1
+	if pred.Succs[0] == succ {
+		k = 0
+	}
+	raw := condOf(iff)
+	cond := hc.inHelper(pred.Parent(), raw)
+	for _, b := range bars {
+		if b.Edge == nil {
+			continue
+		}
+		if m, which := b.Edge(cond); m && which == k {
+			return true
+		}
+	}
+	if h2, idx, truthySucc, hcl, ok := helperResultEdge(pred.Parent(), raw); ok {
+		if hc.resultImplies(h2, idx, k == truthySucc, bars, hc.callArgsIn(&hcl.Call, pred.Parent())) {
+			return true
+		}
+	}
+	return false
 }
 
 // helperResultEdge: cond (already described) tests the result of a local
